@@ -45,7 +45,8 @@ TRUSTED = ["distance matrix is symmetric (C07.R3)", "scipy logsumexp(axis=1) red
 TECHNIQUE = "polynomial normal form with permutation (S3) symmetry lint; def-use checks of the padding protocol; axis-role lint"
 LEVEL_TEXT = ("Invariance under relabelling of the posterior samples, independence from co-scored plates (axis isolation + "
               "padding protocol) and id/value alignment are properties of the kernel's algebraic form and data flow; they are "
-              "decided for all inputs. The numerical equality with a reference estimator is explicitly not claimed.")
+              "decided for all inputs. The kernel's returned expression is also compared, as a polynomial normal form over role atoms, with "
+              "the documented estimator (R14): algebraic identity, not floating-point equality, which is explicitly not claimed.")
 LEVEL_NOTE = ("Structural part only. Trusted: symmetric distance matrix, logsumexp/broadcasting semantics. Thorough tier additionally "
               "compares the kernel's canonical form with the form pinned at the reviewed commit (assumption: the pinned form is the "
               "documented estimator). Undecided: float equality with the direct estimator, finiteness.")
